@@ -18,7 +18,7 @@ func main() {
 	kvh.Run(kvh.Config{
 		Seed: *seed, N: *n, Out: *out, MaxDepth: *depth,
 		WWrap: 6, WPwrap: *pfx, WPop: 4, WWrite: 6,
-		WGet: 14, WHas: 5, WSet: 24, WDel: 11, WIter: 8, WOpen: 5, WNext: 6, WDrain: 4, WDump: 2, WNil: 1, WPend: 0,
+		WGet: 14, WHas: 5, WSet: 24, WDel: 11, WIter: 8, WOpen: 5, WNext: 6, WDrain: 4, WDump: 2, WNil: 1, WPend: 0, WBelow: 3,
 		EpochSets: 48,
 	})
 }
